@@ -1,8 +1,9 @@
 import DSV.Lemmas.StepWF
+import DSV.Lemmas.ConvergeRound
 /-!
-# C14 — channel definitions converge to the agreed target in bounded rounds  (partial)
+# C14 — channel definitions converge to the agreed target in bounded rounds  (partial: side conditions named)
 
-Proved here:
+Safety / shape of the votes:
 * `honest_votes_within_limits`: the votes a correct node produces respect the per-observation limits
   that `ValidateObservation` enforces (≤ 5 removals, ≤ 5 updates) and only mention definitions of the
   (verified) target set;
@@ -10,16 +11,30 @@ Proved here:
   that are missing or differ — so votes never point away from the target;
 * `converged_stays`: once the outcome's channel set equals the target, a correct node votes for no
   change;
-* `cap_step` / `cap_invariant`: no reachable outcome holds more than 2000 channels.
+* `cap_step` / `cap_round` / `cap_invariant`: no reachable outcome holds more than 2000 channels.
 
-Not proved (kept as the differential `llo.converge` runs and monitor): the round bound
-`ceil(max(#remove, #update)/5)` (potential-function argument of DESIGN §4 C14) — statement:
+Liveness (potential-function argument of DESIGN §4 C14; helper lemmas in `Lemmas/ConvergeMap.lean`,
+`Lemmas/ConvergeRound.lean`):
+* `cap_never_blocks`: the counting argument — removals are applied before additions, so the ids the
+  honest update votes add always fit below the cap;
+* `quorum_of_honest`: ≥ f+1 counted observations carrying the correct nodes' votes and ≤ f arbitrary
+  counted observations decide the tallies (`QuorumVotes`), whatever the faulty observers vote;
+* `round_progress` / `round_progress_honest`: in such a round the new definitions are exactly the
+  previous ones with the honest removals deleted and the honest updates stored (`Applied`: a lookup
+  characterisation); nothing else changes;
+* `potential_step_partial` / `potential_decreases_partial` / `potential_run_partial`: with
+  `unwanted o T` (ids defined but not in `T`) and `pending o T` (definitions of `T` missing or
+  different), both sorted by id as in `observation()`, one good round maps them to
+  `(unwanted o T).drop maxRemove` and `(pending o T).drop maxUpdate`; `k` rounds drop `k·5` each;
+* `converges_partial` / `converges_in_ceil_rounds_partial` / `converged_round_stays_partial`: after
+  `k ≥ ⌈max(#unwanted, #pending)/5⌉` successful rounds the definitions equal the target, and stay equal.
 
-    theorem converges_partial : ∀ history in which ≥ f+1 correct observers share target T and every
-      intermediate outcome passes VerifyChannelDefinitions, k ≥ ⌈max(#rm,#upd)/5⌉ → defs_k ≃ T
-
-and the side condition is *not* implied by validity of the two endpoint sets: known finding F1
-(`C14/wedged-union-exceeds-stream-limit`).
+Side conditions (hence `_partial`): every round is good at the state it starts from (`GoodRound`), and
+every outcome a round starts from passes `VerifyChannelDefinitions` — otherwise correct nodes refuse
+to observe.  The second one is *not* implied by validity of the two endpoint sets: known finding F1
+(`C14/wedged-union-exceeds-stream-limit`).  Also visible: `maxUpdate ≤ maxRemove` (5 and 5 in the
+implementation, `Facts.limits`) and no hash collision between a counted update and a target
+definition (`NoCollision`; the channel hash is SHA-256).
 -/
 namespace DSV.Props.C14
 open DSV DSV.LLO DSV.GoMap
@@ -175,5 +190,458 @@ theorem cap_invariant (env : Env) (cfg : Cfg) (o0 : Outcome) (h0 : o0.defs.lengt
   obtain ⟨o1, h1, h2⟩ := step_ok hs
   rw [codecRoundTrip_defs_length h2]
   exact cap_round env cfg r.σ r.nAos o o1 r.obs h1 hp
+
+/-! ## liveness: the honest votes are applied, the potential drops, the target is reached -/
+
+/-- closed form of the votes: first `maxRemove` unwanted ids, first `maxUpdate` pending definitions -/
+theorem votes_closed_form (env : Env) (prev : Outcome) (T : GoMap Nat ChanDef)
+    (rm : List Nat) (upd : GoMap Nat ChanDef)
+    (hnr : prev.stage ≠ stageRetired) (hvT : verifyChannelDefinitions env T = true)
+    (hv : observationVotes env prev T = some (rm, upd)) :
+    verifyChannelDefinitions env prev.defs = true ∧
+    rm = (unwanted prev.defs T).take env.maxRemove ∧ upd = (pending prev.defs T).take env.maxUpdate := by
+  have hvp : verifyChannelDefinitions env prev.defs = true := by
+    cases hvp : verifyChannelDefinitions env prev.defs with
+    | true => rfl
+    | false =>
+      exfalso
+      unfold observationVotes at hv
+      have h1 : (prev.stage == stageRetired) = false := by simpa using hnr
+      simp [h1, hvp] at hv
+  rw [observationVotes_eq env prev T hnr hvp hvT] at hv
+  simp only [Option.some.injEq, Prod.mk.injEq] at hv
+  exact ⟨hvp, hv.1.symm, hv.2.symm⟩
+
+theorem length_le_of_verify (env : Env) (T : GoMap Nat ChanDef) (h : verifyChannelDefinitions env T = true) :
+    T.length ≤ env.maxChannels := by
+  unfold verifyChannelDefinitions at h
+  split at h
+  · cases h
+  · omega
+
+/-- **the cap never blocks an honest addition** (counting argument of DESIGN §4 C14).  `D1` is the
+    definitions map after the removal loop of the round; the ids that the honest update votes add on
+    top of it fit below `MaxOutcomeChannelDefinitionsLength`: removals are applied before additions,
+    and either all unwanted channels are gone (then the count stays `≤ |T| ≤ cap`) or `maxRemove`
+    channels were removed and at most `maxUpdate ≤ maxRemove` are added. -/
+theorem cap_never_blocks (env : Env) (prev : Outcome) (T : GoMap Nat ChanDef)
+    (rm : List Nat) (upd : GoMap Nat ChanDef)
+    (hnr : prev.stage ≠ stageRetired) (hwf : WF prev.defs) (hcap : prev.defs.length ≤ env.maxChannels)
+    (hmax : env.maxUpdate ≤ env.maxRemove) (hwfT : WF T) (hvT : verifyChannelDefinitions env T = true)
+    (hv : observationVotes env prev T = some (rm, upd))
+    (D1 : GoMap Nat ChanDef) (hD : WF D1)
+    (hD1 : ∀ k, get? D1 k = if k ∈ rm then none else get? prev.defs k) :
+    D1.length + (upd.filter (fun e => !D1.contains e.1)).length ≤ env.maxChannels := by
+  obtain ⟨_, h1, h2⟩ := votes_closed_form env prev T rm upd hnr hvT hv
+  subst h1 h2
+  exact cap_count prev.defs T D1 env.maxRemove env.maxUpdate env.maxChannels hwf hwfT hD
+    (length_le_of_verify env T hvT) hcap hmax hD1
+
+/-- what the tallies of a round must look like for the honest votes `(rm, upd)` to win: an id has
+    more than `f` removal votes among the counted observations exactly when it is one of `rm` (every
+    honest vote has more than `f`, every other id at most `f`), and likewise for update hashes -/
+structure QuorumVotes (env : Env) (cfg : Cfg) (obs : List Obs) (rm : List Nat) (upd : GoMap Nat ChanDef) : Prop where
+  remove : ∀ c, cfg.f < votesFor (votesRemove c) (counted env obs) ↔ c ∈ rm
+  update : ∀ h, cfg.f < votesFor (votesUpdate env h) (counted env obs) ↔ ∃ e ∈ upd, env.hashOf e.1 e.2 = h
+
+/-- at least `f+1` counted observations carry exactly the votes `(rm, upd)`, at most `f` counted
+    observations (`faulty`) are arbitrary -/
+def HonestQuorum (env : Env) (cfg : Cfg) (obs : List Obs) (rm : List Nat) (upd : GoMap Nat ChanDef) : Prop :=
+  ∃ faulty : Obs → Bool,
+    (counted env obs).countP faulty ≤ cfg.f ∧
+    cfg.f + 1 ≤ (counted env obs).countP (fun o => !faulty o) ∧
+    ∀ o ∈ counted env obs, faulty o = false → (∀ c, c ∈ o.removes ↔ c ∈ rm) ∧ (∀ e, e ∈ o.updates ↔ e ∈ upd)
+
+/-- whatever the (at most `f`) faulty observers vote, `f+1` unanimous correct observers decide the tallies -/
+theorem quorum_of_honest (env : Env) (cfg : Cfg) (obs : List Obs) (rm : List Nat) (upd : GoMap Nat ChanDef)
+    (h : HonestQuorum env cfg obs rm upd) : QuorumVotes env cfg obs rm upd := by
+  obtain ⟨faulty, hf, hh, hon⟩ := h
+  constructor
+  · intro c
+    constructor
+    · intro hlt
+      apply Classical.byContradiction
+      intro hc
+      have : votesFor (votesRemove c) (counted env obs) ≤ (counted env obs).countP faulty := by
+        apply List.countP_mono_left
+        intro o ho hv
+        cases hfo : faulty o with
+        | true => rfl
+        | false =>
+          exfalso
+          apply hc
+          rw [← (hon o ho hfo).1 c]
+          simpa [votesRemove] using hv
+      omega
+    · intro hc
+      have : (counted env obs).countP (fun o => !faulty o) ≤ votesFor (votesRemove c) (counted env obs) := by
+        apply List.countP_mono_left
+        intro o ho hfo
+        have hfo' : faulty o = false := by simpa using hfo
+        have := ((hon o ho hfo').1 c).mpr hc
+        simpa [votesRemove] using this
+      omega
+  · intro h
+    constructor
+    · intro hlt
+      apply Classical.byContradiction
+      intro hc
+      have : votesFor (votesUpdate env h) (counted env obs) ≤ (counted env obs).countP faulty := by
+        apply List.countP_mono_left
+        intro o ho hv
+        cases hfo : faulty o with
+        | true => rfl
+        | false =>
+          exfalso
+          apply hc
+          simp only [votesUpdate, List.any_eq_true, beq_iff_eq] at hv
+          obtain ⟨e, he, hh'⟩ := hv
+          exact ⟨e, ((hon o ho hfo).2 e).mp he, hh'⟩
+      omega
+    · rintro ⟨e, he, hh'⟩
+      have : (counted env obs).countP (fun o => !faulty o) ≤ votesFor (votesUpdate env h) (counted env obs) := by
+        apply List.countP_mono_left
+        intro o ho hfo
+        have hfo' : faulty o = false := by simpa using hfo
+        have := ((hon o ho hfo').2 e).mpr he
+        simp only [votesUpdate, List.any_eq_true, beq_iff_eq]
+        exact ⟨e, this, hh'⟩
+      omega
+
+/-- **round progress**: in a round that starts from a non-retired outcome `prev` and does not collect
+    `f+1` retire votes, in which the correct nodes vote `observationVotes env prev T = some (rm, upd)`
+    for a well-formed, verified target `T` and the tallies are decided by these votes
+    (`QuorumVotes`), the new outcome's definitions are exactly `prev.defs` with `rm` removed and `upd`
+    stored (`Applied`, a lookup characterisation) — nothing else changes, whatever else was voted
+    for, and no honest addition is skipped by the cap. -/
+theorem round_progress (env : Env) (cfg : Cfg) (σ : Sched) (n : Nat) (prev o : Outcome) (obs : List Obs)
+    (T : GoMap Nat ChanDef) (rm : List Nat) (upd : GoMap Nat ChanDef)
+    (hσ : σ.IsSched) (hobs : ∀ x ∈ obs, ObsWF env x)
+    (hwf : WF prev.defs) (hcap : prev.defs.length ≤ env.maxChannels) (hmax : env.maxUpdate ≤ env.maxRemove)
+    (hnr : prev.stage ≠ stageRetired) (hret : votesFor (·.shouldRetire) (counted env obs) ≤ cfg.f)
+    (hwfT : WF T) (hvT : verifyChannelDefinitions env T = true)
+    (hv : observationVotes env prev T = some (rm, upd))
+    (hq : QuorumVotes env cfg obs rm upd) (hinj : NoCollision env (counted env obs) upd)
+    (h : outcome env cfg σ n prev obs = .ok o) :
+    o.stage ≠ stageRetired ∧ Applied prev.defs rm upd o.defs := by
+  obtain ⟨_, t, ht, _, hstage, _, hdefs, _, _⟩ := outcome_ok h
+  obtain ⟨inv, _⟩ := tally_spec env cfg obs t hobs ht
+  have hrv : t.retireVotes = votesFor (·.shouldRetire) (counted env obs) := inv.retire
+  have hst : stageOf cfg prev t ≠ stageRetired := by
+    rcases stageOf_cases cfg prev t with h1 | ⟨_, _, h1⟩ | ⟨_, h1, _⟩ | ⟨_, _, h1, _⟩
+    · rw [h1]; exact hnr
+    · rw [h1]; decide
+    · omega
+    · omega
+  refine ⟨by rw [hstage]; exact hst, ?_⟩
+  rw [hdefs]
+  have hwfU : WF upd := by
+    obtain ⟨_, _, h2⟩ := votes_closed_form env prev T rm upd hnr hvT hv
+    rw [h2]; exact wf_take _ _ (wf_pending _ _ hwfT)
+  exact defsOf_applied env cfg σ (stageOf cfg prev t) prev obs t rm upd hσ hobs ht hst hwf hwfU
+    hq.remove hq.update hinj
+    (fun D1 hD hD1 => cap_never_blocks env prev T rm upd hnr hwf hcap hmax hwfT hvT hv D1 hD hD1)
+
+/-- `round_progress` for `f+1` unanimous correct observers and at most `f` arbitrary ones -/
+theorem round_progress_honest (env : Env) (cfg : Cfg) (σ : Sched) (n : Nat) (prev o : Outcome) (obs : List Obs)
+    (T : GoMap Nat ChanDef) (rm : List Nat) (upd : GoMap Nat ChanDef)
+    (hσ : σ.IsSched) (hobs : ∀ x ∈ obs, ObsWF env x)
+    (hwf : WF prev.defs) (hcap : prev.defs.length ≤ env.maxChannels) (hmax : env.maxUpdate ≤ env.maxRemove)
+    (hnr : prev.stage ≠ stageRetired) (hret : votesFor (·.shouldRetire) (counted env obs) ≤ cfg.f)
+    (hwfT : WF T) (hvT : verifyChannelDefinitions env T = true)
+    (hv : observationVotes env prev T = some (rm, upd))
+    (hq : HonestQuorum env cfg obs rm upd) (hinj : NoCollision env (counted env obs) T)
+    (h : outcome env cfg σ n prev obs = .ok o) :
+    o.stage ≠ stageRetired ∧ Applied prev.defs rm upd o.defs :=
+  round_progress env cfg σ n prev o obs T rm upd hσ hobs hwf hcap hmax hnr hret hwfT hvT hv
+    (quorum_of_honest env cfg obs rm upd hq)
+    (hinj.mono (fun e he => ((votes_are_the_diff env prev T rm upd hv).2 e he).1)) h
+
+/-- the conditions under which a round makes progress towards `T` from `prev`: iteration orders are
+    permutations, decoded observations are Go values, fewer than `f+1` retire votes, no hash collision
+    with a target definition among the counted observations, and — *if* correct nodes observe at all
+    (`observationVotes … = some`) — `f+1` counted observations carry exactly their votes while at most
+    `f` counted observations are arbitrary -/
+structure GoodRound (env : Env) (cfg : Cfg) (T : GoMap Nat ChanDef) (prev : Outcome) (r : Round) : Prop where
+  sched : r.σ.IsSched
+  obsWF : ∀ x ∈ r.obs, ObsWF env x
+  noRetire : votesFor (·.shouldRetire) (counted env r.obs) ≤ cfg.f
+  noCollision : NoCollision env (counted env r.obs) T
+  quorum : ∀ rm upd, observationVotes env prev T = some (rm, upd) → HonestQuorum env cfg r.obs rm upd
+
+/-- **potential**: one good round (including the codec round trip to the next round) drops the first
+    `maxRemove` ids from the list of unwanted channels and the first `maxUpdate` entries from the list
+    of pending definitions; well-formedness, the cap and "not retired" are preserved -/
+theorem potential_step_partial (env : Env) (cfg : Cfg) (T : GoMap Nat ChanDef) (r : Round) (prev o' : Outcome)
+    (hmax : env.maxUpdate ≤ env.maxRemove) (hwfT : WF T) (hvT : verifyChannelDefinitions env T = true)
+    (hwf : WF prev.defs) (hcap : prev.defs.length ≤ env.maxChannels) (hnr : prev.stage ≠ stageRetired)
+    (hgood : GoodRound env cfg T prev r)
+    (hverified : verifyChannelDefinitions env prev.defs = true)
+    (hs : step env cfg r prev = .ok o') :
+    unwanted o'.defs T = (unwanted prev.defs T).drop env.maxRemove ∧
+    pending o'.defs T = (pending prev.defs T).drop env.maxUpdate ∧
+    WF o'.defs ∧ o'.defs.length ≤ env.maxChannels ∧ o'.stage ≠ stageRetired := by
+  obtain ⟨o, h1, h2⟩ := step_ok hs
+  have hv := observationVotes_eq env prev T hnr hverified hvT
+  obtain ⟨hst, happ⟩ := round_progress_honest env cfg r.σ r.nAos prev o r.obs T _ _ hgood.sched hgood.obsWF
+    hwf hcap hmax hnr hgood.noRetire hwfT hvT hv (hgood.quorum _ _ hv) hgood.noCollision h1
+  obtain ⟨hd, hstage⟩ := codecRoundTrip_defs h2
+  have hwfo : WF o.defs := by
+    obtain ⟨_, t, _, _, _, _, hdefs, _, _⟩ := outcome_ok h1
+    rw [hdefs]; unfold defsOf removalsOf
+    exact wf_applyUpdates _ _ _ _ _ (wf_applyRemovals _ _ _ hwf)
+  have hwfo' : WF o'.defs := by rw [hd]; exact wf_byKey _ hwfo
+  have happ' : Applied prev.defs ((unwanted prev.defs T).take env.maxRemove)
+      ((pending prev.defs T).take env.maxUpdate) o'.defs := by
+    intro c
+    rw [hd, get?_byKey _ hwfo c]; exact happ c
+  obtain ⟨p1, p2⟩ := potential_applied prev.defs T o'.defs env.maxRemove env.maxUpdate hwf hwfT hwfo' happ'
+  refine ⟨p1, p2, hwfo', ?_, by rw [hstage]; exact hst⟩
+  rw [codecRoundTrip_defs_length h2]
+  exact cap_round env cfg r.σ r.nAos prev o r.obs h1 hcap
+
+/-- the potential `max(#unwanted, #pending)` loses `min(limit, ·)` in each component per good round -/
+theorem potential_decreases_partial (env : Env) (cfg : Cfg) (T : GoMap Nat ChanDef) (r : Round) (prev o' : Outcome)
+    (hmax : env.maxUpdate ≤ env.maxRemove) (hwfT : WF T) (hvT : verifyChannelDefinitions env T = true)
+    (hwf : WF prev.defs) (hcap : prev.defs.length ≤ env.maxChannels) (hnr : prev.stage ≠ stageRetired)
+    (hgood : GoodRound env cfg T prev r)
+    (hverified : verifyChannelDefinitions env prev.defs = true)
+    (hs : step env cfg r prev = .ok o') :
+    (unwanted o'.defs T).length = (unwanted prev.defs T).length - env.maxRemove ∧
+    (pending o'.defs T).length = (pending prev.defs T).length - env.maxUpdate := by
+  obtain ⟨p1, p2, _⟩ := potential_step_partial env cfg T r prev o' hmax hwfT hvT hwf hcap hnr hgood hverified hs
+  rw [p1, p2, List.length_drop, List.length_drop]
+  exact ⟨rfl, rfl⟩
+
+/-- the potential along a whole history: after `k` successful good rounds the first `k·maxRemove`
+    unwanted ids and the first `k·maxUpdate` pending definitions (of the start) are dealt with -/
+theorem potential_run_partial (env : Env) (cfg : Cfg) (T : GoMap Nat ChanDef) (o0 : Outcome) (rs : List Round)
+    (hmax : env.maxUpdate ≤ env.maxRemove) (hwfT : WF T) (hvT : verifyChannelDefinitions env T = true)
+    (hwf0 : WF o0.defs) (hcap0 : o0.defs.length ≤ env.maxChannels) (hnr0 : o0.stage ≠ stageRetired)
+    (hgood : AlongRun env cfg (GoodRound env cfg T) o0 rs)
+    (hverified : AlongRun env cfg (fun prev _ => verifyChannelDefinitions env prev.defs = true) o0 rs) :
+    ∀ k o, (o0 :: run env cfg o0 rs)[k]? = some o →
+      unwanted o.defs T = (unwanted o0.defs T).drop (k * env.maxRemove) ∧
+      pending o.defs T = (pending o0.defs T).drop (k * env.maxUpdate) := by
+  induction rs generalizing o0 with
+  | nil =>
+    intro k o hk
+    cases k with
+    | zero => simp only [List.getElem?_cons_zero, Option.some.injEq] at hk; subst hk; simp
+    | succ k => simp [run] at hk
+  | cons r rs ih =>
+    intro k o hk
+    cases k with
+    | zero => simp only [List.getElem?_cons_zero, Option.some.injEq] at hk; subst hk; simp
+    | succ k =>
+      obtain ⟨hg, hgrest⟩ := hgood
+      obtain ⟨hvf, hvrest⟩ := hverified
+      unfold run at hk
+      cases hs : step env cfg r o0 with
+      | ok o' =>
+        rw [hs] at hk hgrest hvrest
+        simp only at hk hgrest hvrest
+        obtain ⟨p1, p2, q1, q2, q3⟩ :=
+          potential_step_partial env cfg T r o0 o' hmax hwfT hvT hwf0 hcap0 hnr0 hg hvf hs
+        rw [List.getElem?_cons_succ] at hk
+        cases k with
+        | zero =>
+          simp only [List.getElem?_cons_zero, Option.some.injEq] at hk
+          subst hk
+          simp only [Nat.zero_add, Nat.one_mul]
+          exact ⟨p1, p2⟩
+        | succ k =>
+          obtain ⟨i1, i2⟩ := ih o' q1 q2 q3 hgrest hvrest (k + 1) o hk
+          rw [i1, i2, p1, p2, List.drop_drop, List.drop_drop]
+          have e1 : env.maxRemove + (k + 1) * env.maxRemove = (k + 1 + 1) * env.maxRemove := by
+            rw [Nat.add_mul (k + 1) 1, Nat.one_mul, Nat.add_comm]
+          have e2 : env.maxUpdate + (k + 1) * env.maxUpdate = (k + 1 + 1) * env.maxUpdate := by
+            rw [Nat.add_mul (k + 1) 1, Nat.one_mul, Nat.add_comm]
+          rw [e1, e2]
+          exact ⟨rfl, rfl⟩
+      | err e =>
+        rw [hs] at hk hgrest hvrest
+        simp only at hk hgrest hvrest
+        exact ih o0 hwf0 hcap0 hnr0 hgrest hvrest (k + 1) o hk
+      | panic =>
+        rw [hs] at hk hgrest hvrest
+        simp only at hk hgrest hvrest
+        exact ih o0 hwf0 hcap0 hnr0 hgrest hvrest (k + 1) o hk
+
+/-- **convergence in bounded rounds, and stays** (partial: two explicit side conditions).
+
+    For a history `rs` from a well-formed, non-retired outcome `o0` within the cap and a fixed
+    well-formed verified target `T`:
+
+    * `hgood` — every round is good at the state it starts from (`GoodRound`: ≥ f+1 counted
+      observations carry the correct nodes' votes, ≤ f counted observations are arbitrary, fewer than
+      f+1 retire votes, no hash collision with a target definition);
+    * `hverified` — every outcome a round starts from passes `VerifyChannelDefinitions`, so that
+      correct nodes do observe (`observationVotes ≠ none`).  **This is not implied by the validity of
+      the start and target sets**: the union reached after a round can exceed the unique-stream limit,
+      after which every correct node refuses to observe for ever — known finding F1
+      (`C14/wedged-union-exceeds-stream-limit`);
+
+    the `k`-th agreed outcome of the history (`k = 0` is `o0`, failed rounds do not count) has exactly
+    the target's definitions as soon as `k·maxRemove ≥ #unwanted` and `k·maxUpdate ≥ #pending`, i.e.
+    `k ≥ ⌈max(#remove, #add-or-replace)/5⌉` for the implementation's limits — and for every later `k`
+    too (it stays).  Full-strength statement without `hverified`: false, F1. -/
+theorem converges_partial (env : Env) (cfg : Cfg) (T : GoMap Nat ChanDef) (o0 : Outcome) (rs : List Round)
+    (hmax : env.maxUpdate ≤ env.maxRemove) (hwfT : WF T) (hvT : verifyChannelDefinitions env T = true)
+    (hwf0 : WF o0.defs) (hcap0 : o0.defs.length ≤ env.maxChannels) (hnr0 : o0.stage ≠ stageRetired)
+    (hgood : AlongRun env cfg (GoodRound env cfg T) o0 rs)
+    (hverified : AlongRun env cfg (fun prev _ => verifyChannelDefinitions env prev.defs = true) o0 rs)
+    (k : Nat) (o : Outcome) (hk : (o0 :: run env cfg o0 rs)[k]? = some o)
+    (hkR : (unwanted o0.defs T).length ≤ k * env.maxRemove)
+    (hkU : (pending o0.defs T).length ≤ k * env.maxUpdate) :
+    ∀ c, o.defs.get? c = T.get? c := by
+  obtain ⟨p1, p2⟩ := potential_run_partial env cfg T o0 rs hmax hwfT hvT hwf0 hcap0 hnr0 hgood hverified k o hk
+  rw [List.drop_eq_nil_of_le hkR] at p1
+  rw [List.drop_eq_nil_of_le hkU] at p2
+  exact eq_target_of_potential_nil o.defs T p1 p2
+
+/-- the bound of the property text for the implementation's limits (5 and 5):
+    `k ≥ ⌈max(#to-remove, #to-add-or-replace)/5⌉` rounds suffice -/
+theorem converges_in_ceil_rounds_partial (env : Env) (cfg : Cfg) (T : GoMap Nat ChanDef) (o0 : Outcome) (rs : List Round)
+    (hR : env.maxRemove = 5) (hU : env.maxUpdate = 5) (hwfT : WF T) (hvT : verifyChannelDefinitions env T = true)
+    (hwf0 : WF o0.defs) (hcap0 : o0.defs.length ≤ env.maxChannels) (hnr0 : o0.stage ≠ stageRetired)
+    (hgood : AlongRun env cfg (GoodRound env cfg T) o0 rs)
+    (hverified : AlongRun env cfg (fun prev _ => verifyChannelDefinitions env prev.defs = true) o0 rs)
+    (k : Nat) (o : Outcome) (hk : (o0 :: run env cfg o0 rs)[k]? = some o)
+    (hbound : (max (unwanted o0.defs T).length (pending o0.defs T).length + 4) / 5 ≤ k) :
+    ∀ c, o.defs.get? c = T.get? c := by
+  apply converges_partial env cfg T o0 rs (by omega) hwfT hvT hwf0 hcap0 hnr0 hgood hverified k o hk
+  · rw [hR]; omega
+  · rw [hU]; omega
+
+/-- **stays** at the level of one round: from an outcome whose definitions equal the target, a good
+    round leads to an outcome whose definitions equal the target -/
+theorem converged_round_stays_partial (env : Env) (cfg : Cfg) (T : GoMap Nat ChanDef) (r : Round) (prev o' : Outcome)
+    (hmax : env.maxUpdate ≤ env.maxRemove) (hwfT : WF T) (hvT : verifyChannelDefinitions env T = true)
+    (hwf : WF prev.defs) (hcap : prev.defs.length ≤ env.maxChannels) (hnr : prev.stage ≠ stageRetired)
+    (hgood : GoodRound env cfg T prev r)
+    (hverified : verifyChannelDefinitions env prev.defs = true)
+    (hsame : ∀ c, prev.defs.get? c = T.get? c)
+    (hs : step env cfg r prev = .ok o') : ∀ c, o'.defs.get? c = T.get? c := by
+  obtain ⟨p1, p2, _⟩ := potential_step_partial env cfg T r prev o' hmax hwfT hvT hwf hcap hnr hgood hverified hs
+  obtain ⟨z1, z2⟩ := potential_nil_of_eq_target prev.defs T hwfT hsame
+  rw [z1] at p1; rw [z2] at p2
+  simp only [List.drop_nil] at p1 p2
+  exact eq_target_of_potential_nil o'.defs T p1 p2
+
+/-! ## non-vacuity: a concrete good round (with a faulty voter) that reaches its target -/
+
+namespace ConvergeExample
+
+
+def d : ChanDef := { format := 0, streams := [{ sid := 7, agg := 1 }], opts := [] }
+def env : Env := { check := fun _ => none, hashOf := fun id _ => List.replicate id 0, verifyDef := fun _ => true }
+def cfg : Cfg := { f := 1, version := 1, minInterval := 1, hasPred := false }
+def T : GoMap Nat ChanDef := [(1, d)]
+def o0 : Outcome := { stage := stageProduction, ts := 0, defs := [], va := [], aggs := [] }
+def honest : Obs := { attested := [], shouldRetire := false, ts := 5, removes := [], updates := [(1, d)], values := [] }
+def faulty : Obs := { attested := [], shouldRetire := true, ts := 9, removes := [3], updates := [(2, d)], values := [] }
+def round : Round := { nAos := 3, obs := [honest, honest, faulty], σ := {} }
+def o1 : Outcome := { stage := stageProduction, ts := 5, defs := [(1, d)], va := [(1, 5)], aggs := [] }
+
+theorem counted_eq : counted env round.obs = [honest, honest, faulty] := by decide
+
+def t0 : Tally :=
+    { tss := [5, 5, 9], validRR := none, retireVotes := 1, rmVotes := [(3, 1)],
+      updDefs := [([0], (1, d)), ([0, 0], (2, d))], updVotes := [([0], 2), ([0, 0], 1)], streamObs := [] }
+
+theorem tally_eq : tally env cfg round.obs = .ok t0 := by
+  rfl
+
+theorem med_eq : medianTimestamp [5, 5, 9] = 5 := by
+  unfold medianTimestamp medianOf
+  rw [List.mergeSort_of_pairwise (by decide)]
+  rfl
+
+theorem stage_eq : stageOf cfg o0 t0 = stageProduction := by decide
+
+theorem defs_eq : defsOf env cfg {} stageProduction o0 t0 = [(1, d)] := by
+  unfold defsOf
+  have h : (stageProduction == stageRetired) = false := by decide
+  simp only [h, Bool.false_eq_true, if_false]
+  show applyUpdates env cfg t0.updVotes (List.mergeSort [([0], (1, d)), ([0, 0], (2, d))] candLe) _ = _
+  rw [List.mergeSort_of_pairwise (by decide)]
+  rfl
+
+theorem outcome_eq : outcome env cfg round.σ round.nAos o0 round.obs = .ok o1 := by
+  unfold outcome
+  rw [tally_eq]
+  have h1 : ¬ round.nAos < 2 * cfg.f + 1 := by decide
+  simp only [h1, if_false, GoRes.bind]
+  have h2 : (t0.tss.length == 0) = false := by decide
+  simp only [h2, Bool.false_eq_true, if_false]
+  have h3 : round.σ = {} := rfl
+  have h4 : t0.tss = [5, 5, 9] := rfl
+  rw [h3, stage_eq, defs_eq, h4, med_eq]
+  rfl
+
+theorem step_eq : step env cfg round o0 = .ok o1 := by
+  unfold step
+  rw [outcome_eq]
+  simp [GoRes.bind, codecRoundTrip, cfg, o1]
+
+theorem run_eq : run env cfg o0 [round] = [o1] := by
+  simp [run, step_eq]
+
+
+theorem wfT : WF T := by simp [WF, keys, T]
+theorem verT : verifyChannelDefinitions env T = true := by decide
+
+theorem differs_eq : differs [] (1, d) = true := rfl
+
+theorem votes_eq : observationVotes env o0 T = some ([], [(1, d)]) := by
+  rw [observationVotes_eq env o0 T (by decide) (by decide) verT]
+  simp [unwanted, pending, byKey, o0, T, env, List.filter_cons, differs_eq]
+
+theorem goodRound : GoodRound env cfg T o0 round := by
+  constructor
+  · refine ⟨?_, ?_, ?_, ?_, ?_, ?_⟩ <;> intro l <;> exact List.Perm.refl _
+  · intro x hx
+    simp only [round, List.mem_cons, List.not_mem_nil, or_false] at hx
+    rcases hx with rfl | rfl | rfl <;> simp [ObsWF, honest, faulty]
+  · rw [counted_eq]; decide
+  · intro o ho e he e' he' hh
+    rw [counted_eq] at ho
+    simp only [T, List.mem_singleton] at he'
+    subst he'
+    simp only [List.mem_cons, List.not_mem_nil, or_false] at ho
+    rcases ho with rfl | rfl | rfl
+    · simpa [honest] using he
+    · simpa [honest] using he
+    · simp only [faulty, List.mem_singleton] at he
+      subst he
+      exact absurd hh (by decide)
+  · intro rm upd hv
+    rw [votes_eq] at hv
+    cases hv
+    refine ⟨fun o => o.shouldRetire, ?_, ?_, ?_⟩
+    · rw [counted_eq]; decide
+    · rw [counted_eq]; decide
+    · intro o ho hf
+      rw [counted_eq] at ho
+      simp only [List.mem_cons, List.not_mem_nil, or_false] at ho
+      rcases ho with rfl | rfl | rfl
+      · simp [honest]
+      · simp [honest]
+      · exact absurd hf (by decide)
+
+/-- **non-vacuity**: a concrete round with `f = 1`, two correct observers and one faulty observer
+    (which votes to retire, to remove channel 3 and to add channel 2) satisfies every hypothesis of
+    `converges_partial`; the history really advances (`run_eq`) and the outcome after
+    `⌈max(0, 1)/5⌉ = 1` round holds exactly the target -/
+example : ∀ c, o1.defs.get? c = T.get? c :=
+  converges_partial env cfg T o0 [round] (by decide) wfT verT (by simp [WF, keys, o0]) (by decide) (by decide)
+    (by simp only [AlongRun, and_true]; exact goodRound)
+    (by simp only [AlongRun, and_true]; decide)
+    1 o1 (by rw [run_eq]; rfl)
+    (by simp [unwanted, byKey, o0])
+    (by simp [pending, byKey, o0, T, env, List.filter_cons, differs_eq])
+
+end ConvergeExample
 
 end DSV.Props.C14
